@@ -78,7 +78,15 @@ Section Source.
   Theorem to_cartesian_is_source : forall c x y, gen_to_cartesian NN c x y = to_cartesian NN c (x, y).
   Proof. reflexivity. Qed.
 
+  (* ---- src/transform.rs (with the arguments of the call in src/site.rs) *)
+  Theorem wrap_is_source : forall x, gen_wrap NN x = wrap1 NN x.
+  Proof. reflexivity. Qed.
+
   (* ---- src/shape/molecular_shape2.rs *)
+  Theorem mol_trimer_is_source : forall fsin fcos pi_ radius angle distance,
+    gen_mol_trimer NN fsin fcos pi_ radius angle distance = mol_trimer NN pi_ fsin fcos radius angle distance.
+  Proof. reflexivity. Qed.
+
   Theorem overlap_area_is_source : forall r d, gen_overlap_area NN facos r d = overlap_area NN facos r d.
   Proof. reflexivity. Qed.
 
